@@ -8,7 +8,7 @@ from pyvc.logic import (Rope, as_rope, is_sym, land, lor, lnot, implies, iff, eq
 from pyvc.engine import Ref, HObj, HList, SStr, Dec, OStr, Undecided, PyRaise, mk_str, PStr, pstr_term
 from pyvc.models import HexOf
 from pyvc.verify import NS
-from .common import repo, HARD, N, sym_prv_node, sym_pub_node, serP, fingerprint_of_point
+from .common import is_obj, repo, HARD, N, sym_prv_node, sym_pub_node, serP, fingerprint_of_point
 from . import summaries as SUM
 from .c_wallet_utils import SLIP132, slip132_version
 from .c_bip32 import node_point, spec_xkey_payload
@@ -90,7 +90,7 @@ def master_clauses(c, wref, seed, testnet, cls):
     w = c.deref(wref)
     yield "ensures.wallet_class", w.cls is cls
     m = w.fields.get("master")
-    okm = isinstance(m, Ref) and isinstance(c.deref(m), HObj) and c.deref(m).cls is R.bip32.PrvKeyNode
+    okm = isinstance(m, Ref) and is_obj(c, m) and c.deref(m).cls is R.bip32.PrvKeyNode
     yield "ensures.master_is_private_node", okm
     if not okm:
         return
